@@ -337,6 +337,8 @@ def gen_case(seed, run, tier):
         case["cold_decoy"] = True
     if subs == "explicit" and rs.random() < 0.5:
         case["share_mapping"] = True
+    if subs == "explicit":
+        case["subst_style"] = rs.choice(["plain", "plain", "charge_arg", "other_names"])
     return case
 
 
@@ -418,9 +420,19 @@ def _mk_args(case, call, shared=None):
         if shared is not None and "mapping" in shared:
             kw["substances"] = shared["mapping"]  # the caller keeps ONE mapping and passes it to every call
         else:
-            kw["substances"] = OrderedDict(
-                (s["key"], Substance(s["key"], composition={int(z): v for z, v in s["comp"].items() if v}))
-                for s in case["species"])
+            style = case.get("subst_style", "plain")
+
+            def mk(sp, i):
+                comp = {int(z): v for z, v in sp["comp"].items() if v}
+                name = sp["key"]
+                if style == "other_names":  # the mapping key is the caller's label, the Substance carries another name
+                    name = None if i % 2 else "label-%d" % i
+                if style == "charge_arg" and 0 in comp:  # net charge given through the charge= argument
+                    q = comp.pop(0)
+                    return Substance(name, charge=q, composition=comp)
+                return Substance(name, composition=comp)
+
+            kw["substances"] = OrderedDict((sp["key"], mk(sp, i)) for i, sp in enumerate(case["species"]))
             if shared is not None:
                 shared["mapping"] = kw["substances"]
                 shared["snapshot"] = [(k, sorted(v.composition.items())) for k, v in kw["substances"].items()]
@@ -794,7 +806,7 @@ def execute(case):
     def one(call, faults):
         rec = do_call(case, call, faults, shared if case.get("share_mapping") else None)
         if rec.get("caller_mapping_changed"):
-            explicit = {k: case[k] for k in ("property", "variant", "species", "reac", "prod", "container", "subs", "witness", "cold_decoy", "share_mapping") if k in case}
+            explicit = {k: case[k] for k in ("property", "variant", "species", "reac", "prod", "container", "subs", "witness", "cold_decoy", "share_mapping", "subst_style") if k in case}
             explicit["calls"] = [dict(call, faults=[dict(f) for f in faults])]
             explicit["enumerate"] = None
             v = core.violation("caller_mapping_mutated", "the substances mapping handed to balance_stoichiometry was changed by the call: %s" % rec.get("caller_mapping_detail"),
@@ -807,7 +819,7 @@ def execute(case):
         faulted = bool(faults) or hung  # a solver the simulator had to kill is a fault, whoever caused it
         vs = judge(case, call, rec, faulted)
         for v in vs:
-            explicit = {k: case[k] for k in ("property", "variant", "species", "reac", "prod", "container", "subs", "witness", "cold_decoy", "share_mapping") if k in case}
+            explicit = {k: case[k] for k in ("property", "variant", "species", "reac", "prod", "container", "subs", "witness", "cold_decoy", "share_mapping", "subst_style") if k in case}
             explicit["calls"] = [dict(call, faults=[dict(f) for f in faults])]
             if not faults and call.get("cold"):
                 explicit["calls"][0]["cold"] = [dict(f) for f in call["cold"]]
@@ -903,7 +915,7 @@ def execute(case):
                 if t is not None and t["d"] == 1:
                     same = first["result"] == second.get("result")
             if not same:
-                explicit = {k: case[k] for k in ("property", "variant", "species", "reac", "prod", "container", "subs", "witness", "cold_decoy", "share_mapping") if k in case}
+                explicit = {k: case[k] for k in ("property", "variant", "species", "reac", "prod", "container", "subs", "witness", "cold_decoy", "share_mapping", "subst_style") if k in case}
                 explicit["calls"] = [dict(call, faults=[], after="decoy")]
                 explicit["enumerate"] = None
                 v = core.violation("history_dependence", "the same call gave %s first and %s after a decoy call / injected faults" % (
